@@ -2,6 +2,7 @@ package future
 
 import (
 	"github.com/kercylan98/minotaur/engine/prc"
+	"github.com/kercylan98/minotaur/toolkit/verifhook"
 	"sync"
 	"sync/atomic"
 	"time"
@@ -42,6 +43,7 @@ func New[M prc.Message](rc *prc.ResourceController, id *prc.ProcessId, timeout t
 		timeout: timeout,
 	}
 
+	verifhook.At("fut.reg")
 	fp.ref, _ = rc.Register(id, fp)
 	return fp
 }
@@ -83,7 +85,9 @@ func (f *futureProcess[M]) Ref() *prc.ProcessId {
 }
 
 func (f *futureProcess[M]) Result() (M, error) {
+	verifhook.At("fut.wait")
 	<-f.done
+	verifhook.At("fut.read")
 	var m M
 	switch msg := f.message.(type) {
 	case nil:
@@ -117,6 +121,7 @@ func (f *futureProcess[M]) AssertWait() {
 }
 
 func (f *futureProcess[M]) Forward(refs ...*prc.ProcessId) {
+	verifhook.At("fut.flock")
 	f.forwardsMutex.Lock()
 	defer f.forwardsMutex.Unlock()
 	f.forwards = append(f.forwards, refs...)
@@ -126,8 +131,10 @@ func (f *futureProcess[M]) Forward(refs ...*prc.ProcessId) {
 }
 
 func (f *futureProcess[M]) Initialize(rc *prc.ResourceController, id *prc.ProcessId) {
+	verifhook.At("fut.init")
 	f.rc = rc
 	if f.timeout > 0 {
+		verifhook.At("fut.arm")
 		f.timer = time.AfterFunc(f.timeout, func() {
 			f.Close(ErrorFutureTimeout)
 		})
@@ -135,6 +142,7 @@ func (f *futureProcess[M]) Initialize(rc *prc.ResourceController, id *prc.Proces
 }
 
 func (f *futureProcess[M]) DeliveryUserMessage(receiver, sender, forward *prc.ProcessId, message prc.Message) {
+	verifhook.At("fut.dload")
 	if f.closed.Load() {
 		return
 	}
@@ -143,6 +151,7 @@ func (f *futureProcess[M]) DeliveryUserMessage(receiver, sender, forward *prc.Pr
 	case error:
 		f.Close(m)
 	default:
+		verifhook.At("fut.msg")
 		f.message = message
 		f.Close(nil)
 	}
@@ -161,15 +170,21 @@ func (f *futureProcess[M]) Terminate(source *prc.ProcessId) {
 }
 
 func (f *futureProcess[M]) Close(reason error) {
+	verifhook.At("fut.cas")
 	if !f.closed.CompareAndSwap(false, true) {
 		return
 	}
+	verifhook.At("fut.err")
 	f.err = reason
+	verifhook.At("fut.done")
 	close(f.done)
+	verifhook.At("fut.stop")
 	if f.timer != nil {
 		f.timer.Stop()
 	}
+	verifhook.At("fut.unreg")
 	f.rc.Unregister(f.ref, f.ref)
+	verifhook.At("fut.lock")
 	f.forwardsMutex.Lock()
 	defer f.forwardsMutex.Unlock()
 	f.execForward()
